@@ -541,7 +541,7 @@ def c12(ck):
     # impl -> spec: random histories over all controller types
     n = 200000 if thorough else 20000
     tr = os.path.join(rundir(), "bustr.ndjson")
-    vlib.gbv(["bus-trace", "--events", n, "--out", tr, "--no-ticks", "--no-joypad"])
+    vlib.gbv(["bus-trace", "--events", n, "--out", tr, "--no-ticks", "--no-joypad", "--cart-only"])       # the cartridge's side of the bus only
     ck.count(n)
     for pth in (split_trace_init(tr, 50000) if thorough else [tr]):
         trace_validate(ck, "Trace_Machine", pth, n, "bus-history")
@@ -663,11 +663,20 @@ def c10(ck):
             ck.mismatch(m, "sweep-%s-%s" % (m["tclass"], m["pclass"]))
     n = 400000 if thorough else 40000
     tr = os.path.join(rundir(), "bustr.ndjson")
-    vlib.gbv(["bus-trace", "--events", n, "--out", tr, "--no-ticks", "--no-joypad"])       # no device time: decoding and read-back only
+    # no device time: decoding and read-back only.  (Controller registers are written too: which bank the regions 0x4000-0x7FFF
+    # and 0xA000-0xBFFF show is part of what an address decodes to, so a controller defect is C10's as well as C12's.)
+    vlib.gbv(["bus-trace", "--events", n, "--out", tr, "--no-ticks", "--no-joypad"])
     ck.count(n)
     ck.sample({"history_excerpt": head_lines(tr, 6)[1:]})
     for pth in (split_trace_init(tr, 50000) if thorough else [tr]):
         trace_validate(ck, "Trace_Machine", pth, n, "bus-history")
+    # registers that simply hold what was written read it back whatever device time passes in between: histories WITH device
+    # time and joypad input, judged on those registers alone (Trace_RegEcho skips everything else)
+    te = os.path.join(rundir(), "bustr_time.ndjson")
+    vlib.gbv(["bus-trace", "--events", n, "--out", te])
+    ck.count(n)
+    for pth in (split_trace_init(te, 50000) if thorough else [te]):
+        trace_validate(ck, "Trace_RegEcho", pth, n, "register-echo")
     # the translator fetches instructions too: 2- and 3-byte instructions straddling the end of bank 0 with banks 1..3
     # mapped must take their operand bytes from the mapped bank, as the interpreter's fetch and a data read do
     import gbprog
